@@ -12,13 +12,19 @@ impl StdFile {
     pub uninterp spec fn pos(&self) -> int;
     pub uninterp spec fn log(&self) -> Seq<(int, RecordHeader)>;
     pub uninterp spec fn attempts(&self) -> nat;
+    // output side: how many records of the log / how many bytes of the file have been re-read and
+    // compared with what was meant to be written (BlobWriter::validate_written_*) - ghost
+    pub uninterp spec fn vrecs(&self) -> nat;
+    pub uninterp spec fn vbytes(&self) -> nat;
     #[verifier::external_body]
     pub fn write_all_vec(&mut self, buf: &Vec<u8>) -> (r: Result<(), TErr>)
         ensures r.is_ok() ==> final(self).pos() == old(self).pos() + buf@.len() && final(self).log() == old(self).log(),
+            final(self).vrecs() == old(self).vrecs(), final(self).vbytes() == old(self).vbytes(), final(self).blob_header() == old(self).blob_header(),
     { unimplemented!() }
     #[verifier::external_body]
     pub fn write_all_bytes(&mut self, buf: &Bytes) -> (r: Result<(), TErr>)
         ensures r.is_ok() ==> final(self).pos() == old(self).pos() + buf@.len() && final(self).log() == old(self).log(),
+            final(self).vrecs() == old(self).vrecs(), final(self).vbytes() == old(self).vbytes(), final(self).blob_header() == old(self).blob_header(),
     { unimplemented!() }
 }
 impl Bytes {
@@ -30,10 +36,11 @@ impl Bytes {
 pub fn ser_header_into_file(f: &mut StdFile, h: &RecordHeader) -> (r: Result<(), TErr>)
     ensures r.is_ok() ==> final(f).pos() == old(f).pos() + header_len(*h)
         && final(f).log() == old(f).log().push((old(f).pos(), *h)),
+        final(f).vrecs() == old(f).vrecs(), final(f).vbytes() == old(f).vbytes(), final(f).blob_header() == old(f).blob_header(),
 { unimplemented!() }
 #[verifier::external_body]
 pub fn header_serialized_size(h: &RecordHeader) -> (r: Result<u64, TErr>)
-    ensures r.is_ok() ==> r->Ok_0 == header_len(*h), header_len(*h) <= 0x1_0000,
+    ensures r.is_ok() ==> r->Ok_0 == header_len(*h), 1 <= header_len(*h) <= 0x1_0000,
         r.is_err() ==> !(r->Err_0 is Tools) && !(r->Err_0 is PearlValidation)
 { unimplemented!() }
 #[verifier::external_body]
@@ -52,7 +59,7 @@ impl RecordHeader {
     { unimplemented!() }
 }
 #[verifier::external_body]
-pub fn cache_push(c: &mut Vec<Record>, r: Record) { unimplemented!() }
+pub fn cache_push(c: &mut Vec<Record>, r: Record) ensures final(c)@ == old(c)@.push(r) { unimplemented!() }
 
 // anyhow::Error as the tools inspect it: ToolsError variants (src/tools/error.rs) or anything else
 pub enum ToolsError { RecordValidation(()), RecordHeaderValidation(()), SkipRecordData(()), Other(()) }
@@ -133,7 +140,12 @@ impl Record {
 pub fn vec_zeroed_u8(n: usize) -> (r: Vec<u8>) ensures r@.len() == n { unimplemented!() }
 // bincode::deserialize::<Meta>(&bytes)
 #[verifier::external_body]
-pub fn deser_meta(b: &Vec<u8>) -> (r: Result<Meta, TErr>) ensures r.is_err() ==> !(r->Err_0 is Tools) && !(r->Err_0 is PearlValidation) { unimplemented!() }
+pub fn deser_meta(b: &Vec<u8>) -> (r: Result<Meta, TErr>)
+    ensures r.is_err() ==> !(r->Err_0 is Tools) && !(r->Err_0 is PearlValidation),
+        // bincode (fixed-int, the crate's configuration) is canonical for Meta = HashMap<String, Vec<u8>>:
+        // a value decoded from n bytes re-encodes to the bytes it consumed, at most n (ASSUMED)
+        r.is_ok() ==> meta_len(r->Ok_0) <= b@.len(),
+{ unimplemented!() }
 // Vec<u8> -> Bytes
 #[verifier::external_body]
 pub fn bytes_from_vec(v: Vec<u8>) -> (r: Bytes) ensures r@ == v@ { unimplemented!() }
@@ -163,3 +175,56 @@ impl ToolBlobHeader {
         ensures r.is_ok() <==> self.magic_byte == BLOB_MAGIC_BYTE
     { unimplemented!() }
 }
+
+// ---- process_blob_with / recovery_blob (src/tools/utils.rs) ----
+impl StdFile {
+    // the blob header at the start of the output file (ghost)
+    pub uninterp spec fn blob_header(&self) -> Option<ToolBlobHeader>;
+}
+// paths: opaque; `input.as_ref() == output.as_ref()`
+#[verifier::external_body]
+pub struct PathArg { _p: u8 }
+#[verifier::external_body]
+pub fn same_path(a: &PathArg, b: &PathArg) -> (r: bool) { unimplemented!() }
+impl BlobReader {
+    // BlobReader::from_path: read-only open, position 0, len = file length (ASSUMED < 2^62: a real file)
+    #[verifier::external_body]
+    pub fn from_path(p: &PathArg) -> (r: Result<BlobReader, TErr>)
+        ensures r.is_ok() ==> r->Ok_0.wf() && r->Ok_0.position == 0 && r->Ok_0.latest_wrong_header is None && r->Ok_0.len < 0x4000_0000_0000_0000
+    { unimplemented!() }
+}
+impl BlobWriter {
+    // BlobWriter::from_path: create + truncate, nothing written
+    #[verifier::external_body]
+    pub fn from_path(p: &PathArg, cache_written: bool) -> (r: Result<BlobWriter, TErr>)
+        ensures r.is_ok() ==> r->Ok_0.wf() && r->Ok_0.written == 0 && r->Ok_0.written_cached == 0 && r->Ok_0.file.log().len() == 0
+            && (r->Ok_0.cache is Some <==> cache_written) && (r->Ok_0.cache is Some ==> r->Ok_0.cache->Some_0@.len() == 0)
+            && r->Ok_0.file.vrecs() == 0 && r->Ok_0.file.vbytes() == 0 && r->Ok_0.file.blob_header() is None
+    { unimplemented!() }
+    // BlobWriter::write_header + validate_written_header (re-reads what it wrote through a cloned descriptor)
+    #[verifier::external_body]
+    pub fn write_header(&mut self, h: &ToolBlobHeader) -> (r: Result<(), TErr>)
+        requires old(self).wf(), old(self).written == 0
+        ensures r.is_ok() ==> final(self).wf() && final(self).written == blob_header_len(*h) && final(self).file.log() == old(self).file.log()
+            && final(self).cache == old(self).cache && final(self).written_cached == old(self).written_cached
+            // the header is in the file, and was re-read and compared (validate_written_header)
+            && final(self).file.blob_header() == Some(*h) && final(self).file.vbytes() == blob_header_len(*h) && final(self).file.vrecs() == old(self).file.vrecs()
+    { unimplemented!() }
+    // BlobWriter::validate_written_records: re-reads the cached records through a cloned descriptor and
+    // compares; the writer's own position, counters and log are restored
+    #[verifier::external_body]
+    pub fn validate_written_records(&mut self) -> (r: Result<(), TErr>)
+        requires old(self).wf()
+        ensures final(self).wf(), final(self).written == old(self).written, final(self).file.log() == old(self).file.log(),
+            final(self).cache == old(self).cache, final(self).written_cached == old(self).written_cached,
+            final(self).file.blob_header() == old(self).file.blob_header(),
+            // Ok: every cached record was found, equal, in the `written_cached` bytes before the current position
+            r.is_ok() && old(self).cache is Some ==> final(self).file.vrecs() == old(self).file.vrecs() + old(self).cache->Some_0@.len()
+                && final(self).file.vbytes() == old(self).file.vbytes() + old(self).written_cached,
+            old(self).cache is None ==> final(self).file.vrecs() == old(self).file.vrecs() && final(self).file.vbytes() == old(self).file.vbytes(),
+    { unimplemented!() }
+}
+#[verifier::external_body]
+pub fn misc_error() -> (r: TErr) ensures r is Misc { unimplemented!() }
+#[verifier::external_body]
+pub fn records_clear(c: &mut Vec<Record>) ensures final(c)@.len() == 0 { unimplemented!() }
